@@ -423,6 +423,23 @@ class Elem:
             return sp.Abs(self.expr(e.args[0]))
         if d in ("float", "int"):
             return self.expr(e.args[0])
+        repo = getattr(self, "repo", None)
+        if repo is not None and d and "." not in d and getattr(self, "depth", 0) < 3:
+            g = repo.resolve_name(self.func.module, d, self.func)
+            if hasattr(g, "node") and g.module is self.func.module and not e.keywords and len(e.args) == len(g.params):
+                # a private helper of the same module: interpreted in place on the argument values
+                sub = type(self).__new__(type(self))
+                sub.__dict__.update({k: v for k, v in self.__dict__.items() if k not in ("env", "returns", "log", "func")})
+                sub.func = g
+                sub.env = dict(zip(g.params, [self.expr(a) for a in e.args]))
+                sub.returns = []
+                sub.log = []
+                sub.depth = getattr(self, "depth", 0) + 1
+                sub.run()
+                if len(sub.returns) != 1:
+                    self.err(f"the helper {d} does not have exactly one return", e)
+                self.log.extend(sub.log)
+                return sub.returns[0][1]
         self.err(f"call `{d}` not modelled", e)
 
 
